@@ -19,7 +19,7 @@ class Contract:
     def __init__(self, target, params, returns=None, requires=(), ensures=None, raises=None, may_raise=None,
                  modifies=(), props=(), loops=None, variants=None, yields=None, captures=None, hints=(),
                  constructs=False, gen=None, pure=False, ensures_raise=None, ghost=None, native=None,
-                 comps=None, final=None, note='', requires_for=None, native_only='', reveal=()):
+                 comps=None, final=None, note='', requires_for=None, native_only='', reveal=(), hints_after=None):
         self.target = target
         self.params = dict(params)
         self.returns = returns
@@ -43,6 +43,7 @@ class Contract:
         self.comps = dict(comps or {})
         self.final = dict(final or {})             # generator exhaustion clauses
         self.note = note
+        self.hints_after = dict(hints_after or {})   # local name -> lemma-schema instances added once it is assigned
         self.reveal = list(reveal)         # opaque spec functions whose definition this proof may unfold
         self.native_only = native_only     # non-empty: reason why this contract is checked by the bounded stand-in only
         self.requires_for = dict(requires_for or {})   # property id -> extra preconditions (the property's own domain)
